@@ -50,6 +50,27 @@ def random_ops(rng, n):
     return ops
 
 
+def add_extras(ops, seed):
+    """a second stream of choices (the sequences above stay what they were): COB-ID changes of the SYNC
+    producer, and frames with the PDO map's own COB-ID reaching the network (echo / second transmitter)"""
+    r2 = random.Random(seed)
+    out, ts = [], 2
+    for op in ops:
+        out.append(op)
+        x = r2.random()
+        if x < 0.06:
+            out.append({"op": "sync_cob", "id": r2.choice([0x80, 0x81, 0x100, 0x7F, 0x1ABC])})
+            if r2.random() < 0.7:
+                out.append({"op": "sync_start", "period_us": r2.choice([0, 10000, 250000])})
+        elif x < 0.16:
+            for _ in range(r2.choice([1, 2, 2, 3])):
+                ts += r2.randrange(1, 9)
+                out.append({"op": "pdo_echo", "d": [r2.randrange(256), r2.randrange(256)], "ts": ts})
+            if r2.random() < 0.6:
+                out.append({"op": "pdo_start", "period_us": 0})
+    return out
+
+
 def main():
     args = parse_args(PROP)
     v = Verdict(PROP, args)
@@ -73,6 +94,10 @@ def main():
                           "nid": rng.choice([1, 5, 100]), "src": "random",
                           "pdomap": ["ltpdo", "ltpdo", "rrpdo", "rrpdo", "rtpdo", "rtpdo", "lrpdo", "lrpdo"][i % 8],
                           "pdolayout": "straddle" if i % 3 == 1 else "plain"})
+    if not args.replay:
+        for i, c in enumerate(cases):
+            if i % 2:
+                c["ops"] = add_extras(c["ops"], args.seed * 100003 + i)
     results = run_cases("harness.drv_periodic:run_case", cases, jobs=args.jobs, timeout=120)
     if any(r.get("hang") for r in results):
         raise RuntimeError("driver hang")
